@@ -30,12 +30,13 @@ def c01(ctx: Ctx):
     if ctx.replay:
         v = ctx.replay["violation"]
         cases = os.path.join(ctx.scratch, "cases.ndjson")
-        write_ndjson(cases, [dict(s=v["s"], vals=[v["v"]] if "v" in v else [])])
+        write_ndjson(cases, [dict(s=v["s"], vals=[v["v"]] if "v" in v else [], share=bool(v.get("share")))])
         vals = os.path.join(ctx.scratch, "vals.ndjson")
         write_ndjson(vals, [])
     else:
         # D: implementation-shaped model vs reference semantics, algebraic laws, monotonicity (spec only)
-        ctx.tlc("MC_C01", "MC_C01_%s.cfg" % ctx.tier, label="D SchemaImpl = SchemaSem modulo listed classes; laws", timeout=3000)
+        if not os.environ.get("VERIF_DEV_SKIP_D"):   # development aid only (iterating on F/B); never set by bin/runall, bin/reseed
+            ctx.tlc("MC_C01", "MC_C01_%s.cfg" % ctx.tier, label="D SchemaImpl = SchemaSem modulo listed classes; laws", timeout=3000)
         cases, vals = gen_schemas(ctx, "Gen_C01_%s.cfg" % ctx.tier, "F generate schemas (BFS)")
         ctx.exhaustive = True
     ctx.build_driver()
